@@ -96,6 +96,18 @@ def capacities(F, R):
                         d = describe(mn, s['rv']['ops'][s['rv']['fields'].index(fld)], depth=8, at=bb)
                         R.check(cap in d and not any(c2 in d for c2 in ('sub_track_capacity', 'send_track_capacity') if c2 != cap), 'B.C08.capacity', 'Mixer.' + fld,
                                 'Mixer::new creates %s as %s, not with %s' % (fld, d[:80], cap), detail={'storage': fld, 'capacity': cap})
+    # ... passed on as it is: every storage / controller constructor in the crate receives a plain capacity (a parameter or a
+    # field), never a rounded or otherwise computed one
+    for b in F.bodies:
+        if b.krate != 'kira':
+            continue
+        for bb, t in b.calls():
+            cp = callee_path(t) or ''
+            if cp in (RS + '::new', 'backend::resources::SelfReferentialResourceStorage::<T>::new', 'atomic_arena::Arena::<T>::with_capacity', 'atomic_arena::Arena::<T>::new'):
+                d = describe(b, t['args'][0], depth=4, at=bb)
+                n += 1
+                R.check('(' not in d.replace('(*self)', 'self'), 'B.C08.capacity', 'plain:%s@%s' % (cp.split('::')[-3] if '<T>' in cp else cp, b.path.split('::')[-2] + '::' + b.path.split('::')[-1]),
+                        '%s sizes a resource storage with %s instead of the configured capacity itself' % (b.path, d[:80]), detail={'capacity': d[:80]}, where=b.where(bb), nontrivial=False)
     R.floor('B.C08.capacity', n, 9)
 
 
@@ -293,11 +305,24 @@ def drops(F, R):
             st = [t for bb, t in b.calls() if (callee_path(t) or '').endswith('::store')]
             ok = len(st) == 1 and 'removed' in describe(b, st[0]['args'][0], depth=6) and describe(b, st[0]['args'][1]) == 'True'
         R.check(ok, 'B.C08.drop', h, 'Drop for %s does not set the removal flag' % h, detail='drop => removal flag', where=b.file)
+        # ... on every path (a handle dropped while its thread unwinds from a panic the application survives is a dropped handle)
+        marks = [bb for bb, t in b.calls() if (marker and (callee_path(t) or '').endswith(marker)) or (not marker and (callee_path(t) or '').endswith('::store'))]
+        R.check(bool(marks) and any(all(b.dominates(m_, r) for r in b.return_blocks()) for m_ in marks), 'B.C08.drop', h + ':every-path',
+                'Drop for %s can return without setting the removal flag' % h, detail='the flag is set on every path of drop()', where=b.file)
         ob = F.body(owner_osp)
         if R.check(ob is not None, 'B.C08.drop', 'anchor:pred:' + h, '%s not found' % owner_osp):
             hit = [c for c in F.closures_of(ob.path) if any((callee_path(t) or '').endswith(pred) or pred in (callee_path(t) or '') for _, t in c.calls())]
             R.check(bool(hit), 'B.C08.drop', 'pred:' + h, '%s does not remove with a predicate reading the flag (%s)' % (owner_osp, pred),
                     detail={'predicate': pred})
+            # ... and nothing else: the predicate IS the flag (a budget such as "at most four removals per callback" leaves
+            # dropped resources in place and their slots taken)
+            for c in hit:
+                rets = [str(p_.ret) for p_ in explore(c) if p_.end == 'return']
+                pure = bool(rets) and all((pred in r or pred.split('::')[-1] in r) and not r.startswith(('BitAnd(', 'BitOr(', 'And(')) for r in rets) \
+                    and not any(s2['k'] == 'assign' and s2['lhs']['p'] and pretty_place(c, s2['lhs']).startswith('(*_1)') for _, _, s2 in c.stmts()) \
+                    and len([1 for x in range(c.n) if c.blocks[x]['term']['k'] == 'switch' and not c.blocks[x]['cleanup']]) == 0
+                R.check(pure, 'B.C08.drop', 'pred-pure:' + h, 'the removal predicate of %s is not just the flag test (returns %s)' % (owner_osp, [r[:70] for r in rets]),
+                        detail={'returns': [r[:90] for r in rets]}, nontrivial=False)
     # the marker really raises the flag, and the reader reads the same one
     from .c07 import origin_pl, last_field
     for sh in ('clock::ClockShared', 'track::TrackShared', 'listener::ListenerShared'):
